@@ -91,6 +91,19 @@ def undefined(params):
             _mk_eval(it, groups).evaluate(np.array([0, 1, 1, 2, 0, 5, 0, 0], np.uint8), np.array([0, 1, 1, 2, 0, 5, 0, 0], np.uint8), verbose=False)
         except Exception as e:
             bad.append(f"{it}: fully defined input rejected: {type(e).__name__}: {e}"[:160])
+        # signed maps: a negative value (e.g. an "ignore" region marked -1) is an undefined label like any other
+        if it == "SEMANTIC":
+            for which in ("pred", "ref"):
+                ok_ = np.array([0, 1, 1, 2, 0, 5, 0, 0], np.int16)
+                neg = ok_.copy(); neg[6] = -1
+                pred, ref = (neg, ok_) if which == "pred" else (ok_, neg)
+                try:
+                    _mk_eval(it, groups).evaluate(pred.copy(), ref.copy(), verbose=False)
+                    bad.append(f"{it}: undefined negative label -1 in {which} was silently accepted")
+                except AssertionError:
+                    pass
+                except Exception as e:
+                    bad.append(f"{it}: negative label: unexpected {type(e).__name__}: {e}"[:160])
         # densely labelled maps (no background voxel at all): the smallest label is an ordinary label and must be checked too
         g2 = SegmentationClassGroups({"b": LabelGroup([2, 5])})
         for which in ("pred", "ref"):
